@@ -38,7 +38,7 @@ def run(tier, seed):
     thorough = tier == 'thorough'
     # parser modules of creator x that fail in every way: a PEL that uses them is well-formed and appears in all three modes alike
     env = apel.PluginEnv(allow=True, ud={'x1111': ('echo',), 'x2222': ('raises', 'boom'), 'x3333': ('none',), 'x8888': ('import_raises', 'load failure'),
-                                         'x5a5a': ('raises', ''), 'x6b6b': ('release_raises', 'done')}, registry=REG).install()
+                                         'x5a5a': ('raises', ''), 'x6b6b': ('release_raises', 'done')}, src={'xsrc': ('raises',)}, callout={'x': ('raises',)}, registry=REG).install()
     try:
         cases = []
         for _ in range(120 if thorough else 30):
